@@ -199,6 +199,29 @@ def gen(rng, n, tier):  # noqa: F811
                 cuts.add(rng.randint(min(total - 1, body + 4), total - 1))
             for x in sorted(x for x in cuts if 0 <= x < total):
                 out.append(dict(kind='wind-cut', content=c, cut=x, guard=1.0))
+    # cloud/rain files: cuts evaluated in Coq (Model/CloudRain.v cr_mm_read, incl. the size-based layout guess): the header,
+    # every whole-step boundary of the file's own layout AND of the other layout (a 5-field file cut after header + one 3-field
+    # step IS a valid 3-field file: region 20), their +-1/+-4 neighbours, random offsets
+    for i in range(max(2, n // 8)):
+        c = M.gen_cloud_rain(rng, tier)
+        while len(c['steps']) < 2:
+            c = M.gen_cloud_rain(rng, tier)
+        lay = c['nz'] * (c['nx'] * c['ny'] + 2) * 4
+        total = 40 + len(c['steps']) * (len(c['names']) * lay + 16)
+        must = set([0, 3, 4, 36, 40, 44, 52])
+        for nv in (3, 5):
+            for k in range(1, len(c['steps']) * 2 + 1):
+                must.update(40 + k * (nv * lay + 16) + dlt for dlt in ((0, -1, 1, -4, 4) if k <= 2 else (0,)))
+        for _ in range(6):
+            must.add(rng.randint(0, total - 1))
+        cuts = sorted(x for x in must if 0 <= x < total)
+        if len(cuts) > 30:
+            keep = set(x for x in cuts if (x - 40) > 0 and ((x - 40) % (3 * lay + 16) == 0 or (x - 40) % (5 * lay + 16) == 0))
+            rest = [x for x in cuts if x not in keep]
+            rng.shuffle(rest)
+            cuts = sorted(keep | set(rest[:max(0, 30 - len(keep))]))
+        for x in cuts:
+            out.append(dict(kind='cr-cut', content=c, cut=x, guard=2.0))
     # lateral-boundary files: a subset of cuts evaluated in Coq (Model/Lbdy.v); the full Python sweep of every prefix
     # runs on the lateral_boundary share of the met-sweep stream above (and on every third file of this stream)
     for i in range(max(1, n // 6)):
